@@ -563,6 +563,23 @@ def r5b_statement_kind(R) -> None:
             ok = True
     R.check(ok, q, 'statement-kind-fails', 'a statement of the wrong kind is recorded as a problem (ParserError)',
             'the failing branch of the statement-kind test neither records a problem nor raises', where=f.where(t))
+    # what is checked is what will be built: the compiled text is the symbol's code itself
+    comp = [x for x in ast.walk(f.fi.node) if is_call(x, 'compile') and 'PyCF_ONLY_AST' not in text(x)]
+    for c in comp:
+        a0 = c.args[0] if c.args else None
+        same = False
+        if isinstance(a0, ast.Name):
+            node = [m for m in f.cfg.nodes if m.ast is not None and any(y is c for y in ast.walk(m.ast))]
+            if node:
+                vals = f.lf.values_reaching(node[0].id, a0.id)
+                same = bool(vals) and all(dv is not None and (text(dv).endswith('.code') and isinstance(dv, ast.Attribute)) for (_s, dv) in vals) or \
+                    all(sx == f.cfg.nodes[sx].id and f.cfg.nodes[sx].kind == 'for' for (sx, _dv) in vals)
+        elif isinstance(a0, ast.Attribute) and a0.attr == 'code':
+            same = True
+        R.check(same, q, 'checked-text-is-built-text:' + (text(a0)[:40] if a0 is not None else '?'),
+                'the syntax check compiles exactly the code that build_model will insert',
+                f'`{text(c)[:70]}` compiles a transformed text (not the symbol\'s `code` itself): a statement can pass the check and still fail to build '
+                f'(or the reverse)', where=f.fi.where)
     # the AST comes from the same text that was compiled
     src_ok = False
     for x in ast.walk(f.fi.node):
